@@ -40,9 +40,13 @@ def gen_prog(rng):
     cur = set(p[3])
     for _ in range(rng.choice([0, 1, 2, 3, 4])):
         r = rng.random()
-        if r < 0.15:
+        if r < 0.10:
             a = rng.choice([0, 1, 2])
             p = ("un", ("slice", a, a), mp.DEFAULT, p)
+        elif r < 0.15:
+            # slices that are NOT statically empty: open-ended with an offset, one row, beyond the end
+            a = rng.choice([1, 1, 2, 3])
+            p = ("un", ("slice", a, rng.choice([None, None, a + 1, a + 4])), mp.DEFAULT, p)
         elif r < 0.3:
             p = ("un", ("sel", rng.choice([("plit", False), ("and", [("plit", False)]), ("not", ("plit", True)),
                                            ("and", [gen.gen_pred(rng, cur, 1), ("plit", False)])])), mp.DEFAULT, p)
